@@ -108,6 +108,9 @@ OwnContext == \A p \in Awaits \cap executed : \A l \in LabelsOf(p) :
 \* awaitables only loses the completed one and gains awaitables sequenced behind it (no lost wake-up, no double start)
 NoLostOrDoubleStart == [][\A l \in AllLabels : (l \in completed => l \in completed') /\ (l \in PendingV(executed', completed') => l \notin completed)]_vars
 TypeOK == completed \subseteq AllLabels /\ executed \subseteq Pos
+\* liveness of the design: if every started awaitable eventually completes, the whole call finishes (no lost wake-up, nothing waits for an
+\* awaitable that is never started) - checked under weak fairness of the next-state relation
+Termination == <>Finished
 
 \* observation for the replay (function of the other variables)
 VARIABLE obs
@@ -117,4 +120,5 @@ ViewWithoutOrder == <<executed, completed, ctx, read, obs>>
 ObsOf(ex, co) == [settled |-> SettledV(ex, co), pending |-> PendingV(ex, co), completed |-> co, finished |-> DoneV(<<>>, ex, co)]
 MCInit == Init /\ obs = ObsOf({}, {})
 MCNext == Next /\ obs' = ObsOf(executed', completed')
+FairSpec == MCInit /\ [][MCNext]_<<vars, obs>> /\ WF_<<vars, obs>>(MCNext)
 =============================================================================
